@@ -119,19 +119,26 @@ R, D = "release", "dev"
 def cfgs(names, profiles=(R,), alloc=True):
     return [(n, p, alloc) for n in names for p in profiles]
 
+def rnd(tier, configs, nvecs=2, profiles=None):
+    """direction B: long random histories on large vectors (seeded by VERIF_SEED)"""
+    q = tier == "quick"
+    return dict(random=dict(traces=4 if q else 24, steps=2500 if q else 12000, maxlen=120 if q else 400, nvecs=nvecs),
+                configs=cfgs(configs, profiles or ((R,) if q else (R, D))))
+
 def c01(tier):
     if tier == "quick":
         return [dict(model="elem", configs=cfgs(["heap8d", "heap3n", "heap0d"], (R,)) + cfgs(["heap160"], (D,))),
-                dict(model="shift", configs=cfgs(LAYOUTS_Q, (R,)))]
+                dict(model="shift", configs=cfgs(LAYOUTS_Q, (R,))), rnd(tier, ["heap8d", "heap12d"])]
     return [dict(model="elem", configs=cfgs(["heap8d", "heap3n", "heap160", "heap0d", "heap12d", "heap1n"], (R, D))),
-            dict(model="shift", configs=cfgs(LAYOUTS_T, (R, D)))]
+            dict(model="shift", configs=cfgs(LAYOUTS_T, (R, D))), rnd(tier, ["heap8d", "heap24d", "heap12d", "heap160", "fence8d", "heap0d"], nvecs=3)]
 
 def c02(tier):
     if tier == "quick":
         return [dict(model="range", configs=cfgs(["heap8d"], (R, D)) + cfgs(["heap3n", "heap0d"], (R,))),
-                dict(model="shift", configs=cfgs(LAYOUTS_Q, (R,))), dict(model="outlive", configs=cfgs(["heap8d"], (R,)))]
+                dict(model="shift", configs=cfgs(LAYOUTS_Q, (R,))), dict(model="outlive", configs=cfgs(["heap8d"], (R,))), rnd(tier, ["heap8d", "heap12d"])]
     return [dict(model="range", configs=cfgs(["heap8d", "heap3n", "heap160", "heap0d", "heap12d"], (R, D))),
-            dict(model="shift", configs=cfgs(LAYOUTS_T, (R, D))), dict(model="outlive", configs=cfgs(["heap8d", "heap160"], (R, D)))]
+            dict(model="shift", configs=cfgs(LAYOUTS_T, (R, D))), dict(model="outlive", configs=cfgs(["heap8d", "heap160"], (R, D))),
+            rnd(tier, ["heap8d", "heap24d", "heap12d", "heap160", "fence8d", "stack24x3"], nvecs=3)]
 def c14(tier):
     if tier == "quick":
         return [dict(model="iter", configs=cfgs(["heap8d"], (R,))), dict(model="range", configs=cfgs(["heap8d"], (R,)))]
@@ -140,10 +147,11 @@ def c14(tier):
 def c03(tier):
     if tier == "quick":
         return [dict(model="elem", configs=cfgs(["heap8d", "heap0d"], (R,))), dict(model="range", configs=cfgs(["heap8d", "heap0d"], (R,))),
-                dict(model="xchg", configs=cfgs(["heap8d", "heap0d"], (R,))), dict(model="shift", configs=cfgs(["heap0d", "heap12d", "heap1n"], (R,)))]
+                dict(model="xchg", configs=cfgs(["heap8d", "heap0d"], (R,))), dict(model="shift", configs=cfgs(["heap0d", "heap12d", "heap1n"], (R,))),
+                rnd(tier, ["heap8d"], nvecs=3)]
     return [dict(model="elem", configs=cfgs(["heap8d", "heap160", "heap0d", "heap3n"], (R, D))),
             dict(model="range", configs=cfgs(["heap8d", "heap160", "heap0d"], (R, D))),
-            dict(model="xchg", configs=cfgs(["heap8d", "heap160", "heap0d"], (R, D)))]
+            dict(model="xchg", configs=cfgs(["heap8d", "heap160", "heap0d"], (R, D))), rnd(tier, ["heap8d", "heap160", "heap0d", "fence24d"], nvecs=3)]
 def c07(tier):
     if tier == "quick":
         return [dict(model="elem", configs=cfgs(["heap8d"], (R,))), dict(model="range", configs=cfgs(["heap8d"], (R,)))]
@@ -182,16 +190,17 @@ def c11(tier):
 def c05(tier):
     if tier == "quick":
         return [dict(model="elem", configs=cfgs(["fence8d", "fence3n"], (R,))), dict(model="range", configs=cfgs(["fence8d"], (R,))),
-                dict(model="shift", configs=cfgs(["fence24d", "fence3n", "fence160"], (R,))), dict(model="cap", configs=cfgs(["fence8d", "fence0d"], (R,)))]
+                dict(model="shift", configs=cfgs(["fence24d", "fence3n", "fence160"], (R,))), dict(model="cap", configs=cfgs(["fence8d", "fence0d"], (R,))),
+                rnd(tier, ["fence8d", "fence24d"])]
     return [dict(model="elem", configs=cfgs(["fence8d", "fence3n", "fence24d", "fence160", "fence0d", "heap8d"], (R, D))),
             dict(model="range", configs=cfgs(["fence8d", "fence3n", "fence24d", "fence160", "heap8d"], (R, D))),
             dict(model="shift", configs=cfgs(["fence8d", "fence3n", "fence24d", "fence160", "fence0d"], (R, D))),
-            dict(model="cap", configs=cfgs(["fence8d", "fence3n", "fence0d", "fence160"], (R, D)))]
+            dict(model="cap", configs=cfgs(["fence8d", "fence3n", "fence0d", "fence160"], (R, D))), rnd(tier, ["fence8d", "fence24d", "fence3n", "fence160", "heap8d"], nvecs=3)]
 def c18(tier):
     if tier == "quick":
         return [dict(model="cap", configs=cfgs(["heap8d", "heap0d", "heap3n", "heap1n"], (R,))), dict(model="elem", configs=cfgs(["heap8d"], (R,))),
-                dict(model="range", configs=cfgs(["heap8d"], (R,)))]
-    return [dict(model="cap", configs=cfgs(["heap8d", "heap0d", "heap0n", "heap3n", "heap160", "heap160a32", "heap64n"], (R, D))),
+                dict(model="range", configs=cfgs(["heap8d"], (R,))), rnd(tier, ["heap8d", "heap160a32"])]
+    return [dict(model="cap", configs=cfgs(["heap8d", "heap0d", "heap0n", "heap3n", "heap160", "heap160a32", "heap64n"], (R, D))), rnd(tier, ["heap8d", "heap160a32", "heap3n", "heap64n"], nvecs=3),
             dict(model="elem", configs=cfgs(["heap8d", "heap160a32", "heap3n"], (R, D))), dict(model="range", configs=cfgs(["heap8d", "heap160a32"], (R, D))),
             dict(model="shift", configs=cfgs(LAYOUTS_T, (R,)))]
 
